@@ -221,6 +221,7 @@ def run(ctx):
             geometry.insert_rule(ctx, facts, cfg, 'C09.a', 'C09.a-arith', facts.const_val('constants::DNS_MAX_UNCOMPRESSED_SIZE') or 8192)
         from rules import C11
         C11.delete_protocol_rule(ctx, facts, cfg, 'C09.d-delete')
+        C11.classification_rule(ctx, facts, cfg, 'C09.d-sections')
         # ---------------- C09.b --------------------------------------------------
         layout.check_writers(ctx, facts, cfg, 'C09.b')
         for key in facts.inst_keys('rr_iterator::RdataIterable::rr_ip'):
